@@ -3,6 +3,7 @@ package main
 import (
 	"fmt"
 	"go/token"
+	"sort"
 	"strings"
 
 	"golang.org/x/tools/go/ssa"
@@ -215,8 +216,14 @@ func runC10(c *Ctx) {
 		dc := bind.Params[1]
 		bad := ""
 		nFull := 0
+		flowFns := map[*ssa.Function]bool{bind: true} // functions the data connection flows into
+		seenV := map[ssa.Value]bool{}
 		var visit func(v ssa.Value)
 		visit = func(v ssa.Value) {
+			if seenV[v] || v.Referrers() == nil {
+				return
+			}
+			seenV[v] = true
 			for _, r := range *v.Referrers() {
 				switch x := r.(type) {
 				case *ssa.MakeInterface:
@@ -232,6 +239,14 @@ func runC10(c *Ctx) {
 							nFull++
 						case cal.Name() == "Write" || cal.Name() == "Read":
 						case strings.Contains(cal.String(), "log") || strings.Contains(cal.String(), "fmt."):
+						case w.IsMod[cal] && cal.Signature.Recv() == nil && len(cal.Blocks) > 0:
+							// a module helper: what it does with the connection is held to the same rule
+							flowFns[cal] = true
+							for i, a := range cc.Args {
+								if a == v && i < len(cal.Params) {
+									visit(cal.Params[i])
+								}
+							}
 						default:
 							if cc.Args[0] == v && cal.Signature.Recv() != nil {
 								continue // method call on the conn itself (Write, SetDeadline, …)
@@ -258,20 +273,27 @@ func runC10(c *Ctx) {
 		// the two ReadFull buffers are exactly the header (20) and the declared remainder
 		c.Anchor("C10.4", "BindConnection sizes")
 		okSizes := 0
-		w.eachInstr(bind, func(in ssa.Instruction) {
-			call, ok := in.(*ssa.Call)
-			if !ok || call.Call.StaticCallee() == nil || call.Call.StaticCallee().String() != "io.ReadFull" {
-				return
-			}
-			l := a.rangeOfTerm(Term{Len: true, V: call.Call.Args[1]}, in, 3)
-			if l.lo == 20 && l.hi == 20 {
-				okSizes++ // header
-			} else if sl, isS := call.Call.Args[1].(*ssa.Slice); isS && sl.High == nil {
-				if k, isK := constInt(sl.Low); isK && k == 20 {
-					okSizes++ // raw[20:]
+		var ffs []*ssa.Function
+		for f := range flowFns {
+			ffs = append(ffs, f)
+		}
+		sort.Slice(ffs, func(i, j int) bool { return ffs[i].String() < ffs[j].String() })
+		for _, ff := range ffs {
+			w.eachInstr(ff, func(in ssa.Instruction) {
+				call, ok := in.(*ssa.Call)
+				if !ok || call.Call.StaticCallee() == nil || call.Call.StaticCallee().String() != "io.ReadFull" {
+					return
 				}
-			}
-		})
+				l := a.rangeOfTerm(Term{Len: true, V: call.Call.Args[1]}, in, 3)
+				if l.lo == 20 && l.hi == 20 {
+					okSizes++ // header
+				} else if sl, isS := call.Call.Args[1].(*ssa.Slice); isS && sl.High == nil {
+					if k, isK := constInt(sl.Low); isK && k == 20 {
+						okSizes++ // raw[20:]
+					}
+				}
+			})
+		}
 		if okSizes >= 2 {
 			c.OK("C10.4", fname(bind), "read sizes", w.pos(bind.Pos()), "reads exactly 20 header bytes, then raw[20:] of a buffer sized from the declared length")
 		} else {
